@@ -65,12 +65,36 @@ def gen():
                             continue
                         seen.add(mut)
                         out.append({"file": f, "line": li + 1, "old": line, "new": mut, "op": "%s -> %s" % (m.group(0).strip(), new.strip())})
+            # condition replacement
+            m = re.match(r"^(\s*(?:\} else )?if )(?!let )(.+)( \{)$", line)
+            if m:
+                for c in ("true", "false"):
+                    out.append({"file": f, "line": li + 1, "old": line, "new": m.group(1) + c + m.group(3), "op": "if %s" % c})
+            # ordering / adaptor removal
+            for pat in (r"\.sorted\(\)", r"\.sorted_by_key\(\|[^|]*\| [^)]*\)", r"\.filter\(\|[^|]*\| [^()]*(?:\([^()]*\)[^()]*)*\)"):
+                for m2 in re.finditer(pat, line):
+                    out.append({"file": f, "line": li + 1, "old": line, "new": line[:m2.start()] + line[m2.end():], "op": "remove %s" % m2.group(0)[:20]})
             # statement deletion: a simple statement on one line
             if re.match(r"^\s*[\w.*\[\]&() ]+(\.\w+\(.*\)|\s[+\-]?=\s.*);$", line) and not st.startswith(("let ", "return", "Ok(", "Err(")):
                 out.append({"file": f, "line": li + 1, "old": line, "new": re.match(r"^\s*", line).group(0) + "();", "op": "delete statement"})
     for i, m in enumerate(out):
         m["id"] = "M%04d" % i
     os.makedirs(os.path.join(VERIF, "mutants"), exist_ok=True)
+    # keep the ids of the first batch stable: new operators get ids after the old ones
+    try:
+        prev = json.load(open(os.path.join(VERIF, "mutants", "all.json")))
+        key = lambda m: (m["file"], m["line"], m["new"])
+        known = {key(m): m["id"] for m in prev}
+        nxt = len(prev)
+        for m in out:
+            if key(m) in known:
+                m["id"] = known[key(m)]
+            else:
+                m["id"] = "M%04d" % nxt
+                nxt += 1
+        out.sort(key=lambda m: m["id"])
+    except Exception:
+        pass
     json.dump(out, open(os.path.join(VERIF, "mutants", "all.json"), "w"), indent=0)
     print(len(out), "mutants")
 
